@@ -193,7 +193,8 @@ func (g *genCtx) msg(md protoreflect.MessageDescriptor, depth int) *dynamicpb.Me
 				n = 1
 			}
 			for k := 0; k < n; k++ {
-				v, ok := g.single(fd.MapValue(), depth, k+1)
+				// boundary mode: the first map value is a set-but-empty message (i = 0), as for singular fields
+				v, ok := g.single(fd.MapValue(), depth, k)
 				if !ok {
 					continue
 				}
